@@ -20,6 +20,7 @@ use serde_json::{json, Value};
 
 mod fns;
 mod ltoken;
+mod proxy;
 
 thread_local! {
     static LAST_PANIC: RefCell<String> = RefCell::new(String::new());
@@ -89,6 +90,10 @@ fn ltoken_code() -> Box<dyn Contract<Empty>> {
         ContractWrapper::new(ltoken::execute, ltoken::instantiate, ltoken::query)
             .with_migrate(ltoken::migrate),
     )
+}
+
+fn proxy_code() -> Box<dyn Contract<Empty>> {
+    Box::new(proxy::Proxy)
 }
 
 #[derive(Default)]
@@ -178,6 +183,7 @@ impl World {
         codes.insert("cw20".to_string(), app.store_code(cw20_code()));
         codes.insert("pair2".to_string(), app.store_code(pair_code()));
         codes.insert("ltoken".to_string(), app.store_code(ltoken_code()));
+        codes.insert("proxy".to_string(), app.store_code(proxy_code()));
         World {
             app,
             codes,
